@@ -58,7 +58,17 @@ def run(ctx):
                     if any(o.kind == 'call' and o.key == 'plan::build_plan' for o in io):
                         ok = ok and all(o.bb == plans[0][0] for o in io if o.kind == 'call' and o.key == 'plan::build_plan')
                 ok = ok and cfg.dominates(prints[0][0], next(iter(dr_false))[0])
-            ctx.check(ok, 'C15.R5', '%s:printed-plan-is-executed-plan' % key, 'print_plan(&plan) and the delivery loops use the one build_plan result',
+            if not ok and len(plans) == 1 and len(prints) == 1:
+                po_ = [o for o in fl.origins(prints[0][1]['args'][0], mut_calls=True) if o.kind in ('call', 'mutcall')]
+                extra = sorted({str(o.key).split('::')[-1] for o in po_ if not (o.key == 'plan::build_plan' and o.bb == plans[0][0])})
+                if any(o.key == 'plan::build_plan' for o in po_) and extra and all(x in ('partition', 'retain', 'filter', 'collect', 'into_iter', 'iter', 'extend', 'push', 'drain', 'cloned', 'unzip', 'partition_map', 'sort', 'sort_unstable', 'dedup', 'next', 'take', 'len', 'replace', 'swap', 'clone', 'truncate', 'split_off', 'append') for x in extra) \
+                        and fl.cfg.dominates(prints[0][0], next(iter(dr_false))[0]):
+                    # the plan is post-processed between build_plan and print (a partition of plan.transfer, say): the printed
+                    # and the executed plan are still one value, but it is no longer build_plan's - what was taken out is data
+                    ctx.undecided('C15.R5', '%s post-processes the plan (%s) before printing it: that what is printed is what is executed is not decided' % (key, ', '.join(extra[:3])))
+                    ok = None
+            if ok is not None:
+              ctx.check(ok, 'C15.R5', '%s:printed-plan-is-executed-plan' % key, 'print_plan(&plan) and the delivery loops use the one build_plan result',
                       '%s prints a different plan than it executes (or prints it after the dry-run test)' % key, loc(b, b.lo))
             # with_delete argument of build_plan is opts.delete
             if plans:
